@@ -319,7 +319,13 @@ class Parser:
             self.statement = None
 
     def parse_statement(self) -> None:
-        _parse_result = self.yacc.parse(self.statement, lexer=self.lexer)
+        try:
+            _parse_result = self.yacc.parse(self.statement, lexer=self.lexer)
+        except SimpleDDLParserException:
+            # the lexer met an unknown symbol: with silent=True the statement is skipped
+            if not self.silent:
+                raise
+            _parse_result = None
         if _parse_result:
             self.tables.append(_parse_result)
 
